@@ -527,6 +527,11 @@ func ReorderTypes(module *Module) {
 	for i := range module.GlobalExpressions {
 		module.GlobalExpressions[i].Kind = remapExprTypeHandles(module.GlobalExpressions[i].Kind, remap)
 	}
+	// TypeUseOrder names the same types under their new handles (a second
+	// ReorderTypes must find the arena already in order).
+	for i := range module.TypeUseOrder {
+		module.TypeUseOrder[i] = safeRemap(module.TypeUseOrder[i])
+	}
 	// Remap special types
 	if module.SpecialTypes.RayIntersection != nil {
 		h := remap[*module.SpecialTypes.RayIntersection]
